@@ -58,6 +58,8 @@ StaticErrors ==
    tuple_define |-> "tuple_assignment", tuple_assign |-> "tuple_assignment",
    break_outside_loop |-> "branch_outside_loop", continue_outside_loop |-> "branch_outside_loop",
    break_in_function_in_loop |-> "branch_outside_loop",
+   return_top |-> "return_outside_function", return_in_block |-> "return_outside_function", return_in_loop |-> "return_outside_function",
+   return_in_nested_blocks |-> "return_outside_function", export_in_function |-> "export_inside_function",
    assign_to_builtin |-> "any_compile_error", import_unknown |-> "module_not_found", import_empty |-> "empty_module_name"]
 EmitStatic == (Len(w) = 0) => PrintT(<<"STATIC", ToJson(StaticErrors)>>)
 =============================================================================
